@@ -91,7 +91,7 @@ def run(res):
     if broken and not found:
         res.violation("tie-or-proof-broken", " | ".join(broken)[:1200], {"no_longer_checks": broken}, found_input=False)
     res.assumptions += [
-        "PARTIAL: Lean decides the queue discipline (every operation sequence) and, for master -> slave in unbalanced mode, exactly-once in-order delivery of the composed model (master connection state machine + FT 1.2 encoder + slave transceiver, parser and secondary state machine) for every pattern of retransmissions / losses / duplicates short of the repeat timeout; slave -> master, the master's parsing of the acknowledgement, several slaves on one line and balanced mode are not composed in Lean and are explored by the model-free end-to-end oracle on the real stacks",
+        "PARTIAL: Lean decides the queue discipline (every operation sequence) and, for master -> slave in unbalanced mode, exactly-once in-order delivery of the composed model (master connection state machine + FT 1.2 encoder + slave transceiver, parser and secondary state machine) and (class 1/2 polls) slave -> master, for every pattern of retransmissions / losses / duplicates short of the repeat timeout; several slaves on one line, balanced mode, enqueues interleaved with polls and the behaviour after a link failure are not composed in Lean and are explored by the model-free end-to-end oracle on the real stacks",
         "the link-layer model the composed theorems are about is tied to link_layer.c / serial_transceiver_ft_1_2.c by the same differential as C14/C15 (run here too)",
         "the queue model is the content list (oldest first); the ring indices of cs101_queue.c are tied by dumping the real ring after every operation",
         "the oracle tolerates, per reported link failure, one repeated and one missing frame per stream (the frame in flight), as the property does",
